@@ -31,6 +31,7 @@ type Env struct {
 
 // Summary is the merged result of a run.
 type Summary struct {
+	Sub        int
 	Evaluated  int
 	States     map[uint64]struct{}
 	Trans      map[uint64]struct{}
@@ -283,6 +284,7 @@ func mergeLines(sum *Summary, lines []string) {
 
 func mergeDone(sum *Summary, d *workerDone) {
 	sum.Evaluated += d.Evaluated
+	sum.Sub += d.Sub
 	for _, k := range d.States {
 		sum.States[k] = struct{}{}
 	}
@@ -388,7 +390,8 @@ func Finish(c *Check, env *Env, sum *Summary) int {
 
 	wall := time.Since(env.Start).Seconds()
 	cov := map[string]any{
-		"evaluations":         sum.Evaluated,
+		"evaluations":         sum.Evaluated + sum.Sub,
+		"cases":               sum.Evaluated,
 		"distinct_nontrivial": len(sum.Keys),
 		"rule":                c.Rule,
 		"samples":             sum.Samples,
